@@ -125,7 +125,7 @@ func cmdVerify(args []string) {
 		rep.Funcs = append(rep.Funcs, frp)
 		for _, o := range fr.Obls {
 			o.Name = ct.Pkg.Types.Name() + "." + o.Name
-			if reason, ok := unclaimedReason(ct, o.Name); ok {
+			if reason, ok := unclaimedReason(ct, o.Name, o.Text); ok {
 				o.Text = "[unclaimed: " + reason + "] " + o.Text
 				o.Kind = "unclaimed:" + o.Kind
 			}
@@ -190,8 +190,18 @@ func cmdVerify(args []string) {
 	}
 }
 
-func unclaimedReason(ct *Contract, name string) (string, bool) {
+// unclaimedReason: `unclaimed <suffix> <reason>` matches obligation names (".../index#2", ".../slice#" = every slice
+// obligation); `unclaimed <kind>@<text> <reason>` matches obligations of that kind whose expression text contains
+// <text> (robust against renumbering when unrelated code is added).
+func unclaimedReason(ct *Contract, name string, text ...string) (string, bool) {
 	for suf, reason := range ct.Unclaimed {
+		if i := strings.Index(suf, "@"); i > 0 {
+			kind, want := suf[:i], suf[i+1:]
+			if strings.Contains(name, "/"+kind+"#") && len(text) > 0 && strings.Contains(strings.ReplaceAll(text[0], " ", ""), want) {
+				return reason, true
+			}
+			continue
+		}
 		if strings.HasSuffix(name, "/"+suf) || strings.Contains(name, "/"+suf) {
 			return reason, true
 		}
